@@ -58,7 +58,7 @@ func (w *world) refsUsage(pos position, key string, st setting, segs []segment) 
 	if !refSafe(key) {
 		return
 	}
-	opts := append(st.opts(pos.sep), ucfg.VarExp)
+	opts := append(w.optsFor(st, pos.sep), ucfg.VarExp)
 	if w.val%2 == 0 {
 		// EscapePath only concerns names of the form [..]: no key of the universe, the oracle is unchanged
 		opts = append(opts, ucfg.EscapePath())
@@ -233,7 +233,7 @@ func (w *world) policyUsage(pos position, s, key string, st setting, segs []segm
 			key2 = ""
 		}
 	}
-	opts := append(st.opts(pos.sep), ucfg.FieldAppendValues(key))
+	opts := append(w.optsFor(st, pos.sep), ucfg.FieldAppendValues(key))
 	first := map[string]interface{}{key: []interface{}{"one"}}
 	second := map[string]interface{}{key: []interface{}{"two"}}
 	allowed := 2 // the appended list itself
